@@ -76,6 +76,25 @@ struct verif_wit nondet_wit(void);
 #define WIT_M(nr, m)
 #endif
 
+/* An arbitrary NUL-terminated string of len <= maxlen (<= 12) non-NUL bytes in an allocation of EXACTLY len+1 bytes, so that
+ * a read past the terminating NUL is a refuted pointer check (a fixed-size buffer would hide over-reads of short strings).
+ * One constant-size allocation per length: a malloc of symbolic size is far more expensive for the SAT back end. */
+static char *verif_exact_string(size_t maxlen)
+{
+  size_t len = nondet_size_t(), i; char *s;
+  __CPROVER_assume(len <= maxlen && maxlen <= 12);
+  switch (len) {
+  case 0: s = malloc(1); break;   case 1: s = malloc(2); break;   case 2: s = malloc(3); break;   case 3: s = malloc(4); break;
+  case 4: s = malloc(5); break;   case 5: s = malloc(6); break;   case 6: s = malloc(7); break;   case 7: s = malloc(8); break;
+  case 8: s = malloc(9); break;   case 9: s = malloc(10); break;  case 10: s = malloc(11); break; case 11: s = malloc(12); break;
+  default: s = malloc(13); break;
+  }
+  __CPROVER_assume(s != 0);
+  for (i = 0; i < len; i++) { s[i] = nondet_char(); __CPROVER_assume(s[i] != 0); }
+  s[len] = 0;
+  return s;
+}
+
 #ifndef VERIF_NO_CANARY
 #define VERIF_CANARY() __CPROVER_assert(0, "canary")
 #else
